@@ -43,6 +43,14 @@ def make(R, kind, n, cache):
         return R.rrule(R.DAILY, dtstart=BASE, count=n, cache=cache)
     if kind == 'rule-until':
         return R.rrule(R.HOURLY, dtstart=BASE, interval=6, until=BASE + D.timedelta(hours=6 * (n - 1)) if n else BASE - D.timedelta(1), cache=cache)
+    if kind == 'nested':
+        # a cached set over cached member rules: filling the set advances the members' own cached iterators
+        rs = R.rruleset(cache=cache)
+        a = n // 2
+        rs.rrule(R.rrule(R.DAILY, dtstart=BASE, count=a, cache=cache))
+        rs.rrule(R.rrule(R.DAILY, dtstart=BASE + D.timedelta(hours=12), count=n - a, cache=cache))
+        rs.exrule(R.rrule(R.DAILY, dtstart=BASE - D.timedelta(days=3), count=2, cache=cache))
+        return rs
     rs = R.rruleset(cache=cache)
     a = n // 2
     rs.rrule(R.rrule(R.DAILY, dtstart=BASE, count=a))
@@ -98,8 +106,24 @@ def brief(r):
 
 
 def guard(obj, log=None):
-    g = locks.GuardLock('_cache_lock', log)
-    obj._cache_lock = g
+    """replace the cache lock of obj (and of the member rules of a set) by guard locks WITHOUT changing which objects
+    share a lock: one guard per distinct original lock object (a lock shared between objects stays shared)"""
+    registry = {}
+
+    def g_for(o):
+        real = getattr(o, '_cache_lock', None)
+        if real is None or isinstance(real, locks.GuardLock):
+            return real
+        g = registry.get(id(real))
+        if g is None:
+            g = locks.GuardLock('_cache_lock', log)
+            g.original = real                 # keeps the original alive, so its id stays unique
+            registry[id(real)] = g
+        o._cache_lock = g
+        return g
+    g = g_for(obj)
+    for m in list(getattr(obj, '_rrule', [])) + list(getattr(obj, '_exrule', [])):
+        g_for(m)
     return g
 
 
@@ -356,8 +380,12 @@ def run(ctx):
             if ctx.tier == 'quick' and n == 30 and kind == 'set':
                 continue
             sweep_two(ctx, R, kind, n)
+    if ctx.shard == 0:
+        for n in (2, 11, 20):
+            sweep_two(ctx, R, 'nested', n)
+            ctx.count('nested_sweeps')
     for _ in range(150 if ctx.tier == 'quick' else 2500):
-        random_single(ctx, R, rng, rng.choice(['rule', 'set', 'rule-until']), rng.choice(LENGTHS))
+        random_single(ctx, R, rng, rng.choice(['rule', 'set', 'rule-until', 'nested']), rng.choice(LENGTHS))
     # (ii) scheduled threads
     sys.setswitchinterval(0.005)
     rounds = 0
@@ -402,7 +430,7 @@ def run(ctx):
     sys.setswitchinterval(1e-6)
     try:
         for _ in range(3 if ctx.tier == 'quick' else 40):
-            free_running(ctx, R, rng, rng.choice(['rule', 'set']), rng.choice([10, 11, 21, 30]), rng.randint(2, 6), 10)
+            free_running(ctx, R, rng, rng.choice(['rule', 'set', 'nested']), rng.choice([10, 11, 21, 30]), rng.randint(2, 6), 10)
     finally:
         sys.setswitchinterval(0.005)
     ctx.sample({'scenario': 'scheduled', 'distinct_interleavings_this_shard': len(sigs)})
